@@ -76,14 +76,28 @@ Definition month_of_local (secs : Z) : Z := month_of_days (secs / 86400).
 (* (first ts, step, number of rows, utc offset in force, observed, temperature?, coverage, ghi?, aux?) *)
 Definition seg := (Z * Z * Z * Z * option Q * bool * option (Z * Z) * bool * bool)%type.
 
-Fixpoint expand_seg_aux (k : nat) (t step off : Z) (obs : option Q) (tp : bool) (cov : option (Z * Z)) (g a : bool)
+(* the civil month is recomputed only when the local day changes: (dend, m) = end of the local day (local seconds)
+   for which m was computed; [expand_seg_simple] is the plain definition, Proofs/SufficiencyProofs.v shows they agree *)
+Fixpoint expand_seg_aux (k : nat) (t step off dend m : Z) (obs : option Q) (tp : bool) (cov : option (Z * Z)) (g a : bool)
   : list row :=
   match k with
   | O => []
-  | S k' => mkrow t (month_of_local (t + off)) obs tp cov g a :: expand_seg_aux k' (t + step) step off obs tp cov g a
+  | S k' =>
+      let loc := t + off in
+      let same := (dend - 86400 <=? loc) && (loc <? dend) in
+      let dend' := if same then dend else (loc / 86400 + 1) * 86400 in
+      let m' := if same then m else month_of_days (loc / 86400) in
+      mkrow t m' obs tp cov g a :: expand_seg_aux k' (t + step) step off dend' m' obs tp cov g a
+  end.
+Fixpoint expand_seg_simple (k : nat) (t step off : Z) (obs : option Q) (tp : bool) (cov : option (Z * Z)) (g a : bool)
+  : list row :=
+  match k with
+  | O => []
+  | S k' => mkrow t (month_of_local (t + off)) obs tp cov g a :: expand_seg_simple k' (t + step) step off obs tp cov g a
   end.
 Definition expand_seg (s : seg) : list row :=
-  let '(t, step, n, off, obs, tp, cov, g, a) := s in expand_seg_aux (Z.to_nat n) t step off obs tp cov g a.
+  let '(t, step, n, off, obs, tp, cov, g, a) := s in
+  expand_seg_aux (Z.to_nat n) t step off ((t + off) / 86400 * 86400) (month_of_days ((t + off) / 86400 - 1)) obs tp cov g a.
 Definition expand (l : list seg) : list row := flat_map expand_seg l.
 
 (* ---------------- comparison ---------------- *)
